@@ -136,6 +136,14 @@ void ProtoRun::filter_record(Record &r, std::vector<Bytes> &out) {
                 for (size_t i = 0; i < w; i++) { u.b[hdr + fo + i] = (unsigned char) (v >> (8 * (w - 1 - i))); }
                 u.tampered = true; u.kind = "hsfield_" + std::to_string(fo); u.is_mod = is_mod;
             }
+        } else if (a.kind == "glue_ccs") {
+            // 1..4 forged plaintext change_cipher_spec records arrive in the same read as (glued in front of) the honest record
+            int n = 1 + (int) ((uint64_t) a.a % 4);
+            uint16_t v = pc.dtls() ? (pc.version == v_dtls_1_0 ? 0xfeff : 0xfefd) : (pc.version == v_tls_1_1 ? 0x0302 : 0x0303);
+            Bytes pre;
+            for (int i = 0; i < n; i++) { Bytes c = make_record(20, v, Bytes{ 1 }, pc.dtls(), 0, 5000 + (uint64_t) i); pre.insert(pre.end(), c.begin(), c.end()); }
+            pre.insert(pre.end(), u.b.begin(), u.b.end());
+            u.b = pre; u.tampered = true; u.kind = "glued_ccs"; u.is_mod = false;
         } else if (a.kind == "fragmove") {
             // DTLS: one fragment claims a longer message AND a fragment offset at/after the originally announced end (two fields changed together)
             if (pc.dtls() && r.type == 22 && blen >= 12 && r.epoch == 0) {
